@@ -1,6 +1,7 @@
 package main
 
 import (
+	"sync"
 	"reflect"
 	"encoding/json"
 	"fmt"
@@ -263,6 +264,11 @@ func replayStream(line []byte, a *Acc) {
 	if err := json.Unmarshal(line, &l); err != nil {
 		panic(err)
 	}
+	if l.Mode == "" {
+		checkLongZeroReads(a) // (replay case of a long-zero-read finding)
+		return
+	}
+	longZeroOnce.Do(func() { checkLongZeroReads(a) })
 	entries := xmlEntries
 	variants := 2
 	if l.Mode == "json" {
@@ -469,6 +475,55 @@ func stripWs(b []byte) string {
 		}
 		return r
 	}, string(b))
+}
+
+// gapReader delivers one byte per Read and `gap` empty reads (0, nil) before each of them
+type gapReader struct {
+	data []byte
+	gap  int
+	left int
+}
+
+func (g *gapReader) Read(p []byte) (int, error) {
+	if g.left > 0 {
+		g.left--
+		return 0, nil
+	}
+	if len(g.data) == 0 {
+		return 0, io.EOF
+	}
+	p[0] = g.data[0]
+	g.data = g.data[1:]
+	g.left = g.gap
+	return 1, nil
+}
+
+var longZeroOnce sync.Once
+
+// long documents with an empty read before every byte: any number of empty reads is legal as long as data keeps coming
+func checkLongZeroReads(a *Acc) {
+	jdoc := `{"k":"` + strings.Repeat("abcdefghij", 15) + `"}`
+	xdoc := `<k a="` + strings.Repeat("abcdefghij", 15) + `">` + strings.Repeat("t", 40) + `</k>`
+	for _, gap := range []int{1, 3} {
+		jr := &gapReader{data: []byte(jdoc + "\n" + jdoc), gap: gap}
+		for i := 0; i < 2; i++ {
+			m, err := mxj.NewMapJsonReader(jr)
+			want, _ := mxj.NewMapJson([]byte(jdoc))
+			if err != nil || tagged.CanonGo(m) != tagged.CanonGo(want) {
+				a.Mis("stream:json:zero-reads-long", fmt.Sprintf("NewMapJsonReader, document %d of a %d-byte stream with %d empty read(s) before every byte: %v", i+1, 2*len(jdoc)+1, gap, err), map[string]string{"f": "stream"})
+				break
+			}
+		}
+		xr := &gapReader{data: []byte(xdoc + xdoc), gap: gap}
+		for i := 0; i < 2; i++ {
+			m, err := mxj.NewMapXmlReader(xr)
+			want, _ := mxj.NewMapXml([]byte(xdoc))
+			if err != nil || tagged.CanonGo(m) != tagged.CanonGo(want) {
+				a.Mis("stream:xml:zero-reads-long", fmt.Sprintf("NewMapXmlReader, document %d with %d empty read(s) before every byte: %v", i+1, gap, err), map[string]string{"f": "stream"})
+				break
+			}
+		}
+	}
 }
 
 func replayFile(line []byte, a *Acc) {
@@ -732,6 +787,12 @@ func replayFileRT(line []byte, a *Acc) {
 			back, rerr := mxj.NewMapsFromJsonFile(fj)
 			if rerr != nil || canonMaps(back) != origAll {
 				one("filert:json:readback", fmt.Sprintf("NewMapsFromJsonFile(%q) = [%s] (err %v), expected [%s]", c.Json, canonMaps(back), rerr, origAll))
+			} else if len(back) > 1 {
+				// the Maps read back are independent values: filling the first leaves the others as they were
+				mutateAll(map[string]interface{}(back[0]))
+				if rest := canonMaps(back[1:]); rest != strings.Join(orig[1:], " | ") {
+					one("filert:json:readback-shared", fmt.Sprintf("NewMapsFromJsonFile(%q): after the first Map was changed by the caller the others read [%s], expected [%s]", c.Json, rest, strings.Join(orig[1:], " | ")))
+				}
 			}
 			raws, rerr := mxj.NewMapsFromJsonFileRaw(fj)
 			okr := rerr == nil && len(raws) == len(orig)
